@@ -1201,3 +1201,79 @@ Proof. intros ops i a. apply update_keeps_identity. apply (run_inv ops ainit AIn
 Theorem dir_lin_check_correct : forall h,
   lin_check astep_r dres_eqb ainit h = true <-> linearizable astep_r ainit h.
 Proof. intros h. apply lin_check_iff. apply dres_eqb_spec. Qed.
+
+(* ---------- identifiers handed out in a linearizable history ---------- *)
+(* Along a legal sequential order of the calls (pending ones included, whatever they would
+   return) the ids of the completed registrations increase strictly; hence the ids of a
+   linearizable history are pairwise distinct: no identifier is handed to two callers. *)
+Lemma hist_ids_cons : forall (x : orec dop dres) l,
+  hist_ids (x :: l) = (match o_op x, o_ret x with ORegister _, Some (_, RId id) => [id] | _, _ => [] end) ++ hist_ids l.
+Proof. reflexivity. Qed.
+
+Lemma legal_ids_increasing : forall lin a, AInv a -> legal astep_r a lin ->
+  StronglySorted N.lt (hist_ids lin) /\ Forall (fun id => a_next a < id) (hist_ids lin).
+Proof.
+  induction lin as [|x l IH]; intros a Ha Hl.
+  - split; constructor.
+  - simpl in Hl. destruct Hl as [Hres Hl]. unfold astep_r in Hres, Hl.
+    remember (astep a (o_op x)) as y eqn:Hy. destruct y as [[a1 r1] ev1]. symmetry in Hy. cbn [fst snd] in *.
+    destruct (astep_inv _ _ _ _ _ Ha Hy) as [Ha' Hle].
+    destruct (IH _ Ha' Hl) as [Hs Hf].
+    assert (Hweak : Forall (fun id => a_next a < id) (hist_ids l)).
+    { eapply Forall_impl; [|exact Hf]. cbv beta; intros; lia. }
+    rewrite hist_ids_cons.
+    destruct (o_op x) eqn:Ho; try (split; assumption).
+    destruct (o_ret x) as [[u r0]|] eqn:Hr; try (split; assumption).
+    destruct r0; try (split; assumption).
+    subst r1.
+    apply astep_register in Hy. destruct Hy as [[_ [_ [_ [E1 [E2 _]]]]]|[_ [E2 _]]]; [|discriminate].
+    inversion E2; subst id. subst a1. cbn [a_next] in Hf. cbn [app]. split.
+    + constructor; [exact Hs | exact Hf].
+    + constructor; [lia | exact Hweak].
+Qed.
+
+Lemma hist_ids_app : forall a b : list (orec dop dres), hist_ids (a ++ b) = hist_ids a ++ hist_ids b.
+Proof. intros. unfold hist_ids. apply flat_map_app. Qed.
+
+Lemma hist_ids_pending : forall rest : list (orec dop dres),
+  Forall (fun x => o_ret x = None) rest -> hist_ids rest = [].
+Proof.
+  induction 1 as [|x l Hx _ IH]; [reflexivity|].
+  rewrite hist_ids_cons, Hx, IH. destruct (o_op x); reflexivity.
+Qed.
+
+Theorem lin_ids_increasing : forall h, linearizable astep_r ainit h ->
+  exists lin rest, Permutation h (lin ++ rest) /\ Forall (fun x => o_ret x = None) rest /\ rt_ok lin /\
+    StronglySorted N.lt (hist_ids lin) /\ Permutation (hist_ids h) (hist_ids lin).
+Proof.
+  intros h [lin [rest [HP [Hpend [Hleg Hrt]]]]]. exists lin, rest.
+  repeat split; try assumption.
+  - apply (legal_ids_increasing lin ainit AInv_init Hleg).
+  - unfold hist_ids at 1. rewrite (Permutation_flat_map _ HP). fold (hist_ids (lin ++ rest)).
+    rewrite hist_ids_app, (hist_ids_pending rest Hpend), app_nil_r. reflexivity.
+Qed.
+
+Lemma sorted_lt_nodup : forall l, StronglySorted N.lt l -> NoDup l.
+Proof.
+  induction 1 as [|x l _ IH Hx]; constructor; [|exact IH].
+  intros Hin. rewrite Forall_forall in Hx. specialize (Hx _ Hin). lia.
+Qed.
+
+Theorem lin_ids_distinct : forall h, linearizable astep_r ainit h -> NoDup (hist_ids h).
+Proof.
+  intros h Hl. destruct (lin_ids_increasing h Hl) as [lin [rest [_ [_ [_ [Hs HP]]]]]].
+  eapply Permutation_NoDup; [symmetry; exact HP | apply sorted_lt_nodup; exact Hs].
+Qed.
+
+Lemma nodupb_spec : forall l, nodupb l = true <-> NoDup l.
+Proof.
+  induction l as [|x r IH]; simpl.
+  - split; [constructor | reflexivity].
+  - rewrite andb_true_iff, negb_true_iff, IH. split.
+    + intros [Hx Hr]. constructor; [|exact Hr]. intros Hin.
+      assert (existsb (N.eqb x) r = true) by (apply existsb_exists; exists x; split; [exact Hin | apply N.eqb_refl]).
+      congruence.
+    + intros Hn. inversion Hn as [|? ? Hx Hr]; subst. split; [|exact Hr].
+      destruct (existsb (N.eqb x) r) eqn:E; [|reflexivity].
+      apply existsb_exists in E. destruct E as [y [Hy Hxy]]. apply N.eqb_eq in Hxy. subst y. contradiction.
+Qed.
